@@ -213,6 +213,30 @@ def run(rep: common.Report):
         import traceback
         traceback.print_exc()
         rep.add(Obligation(f"{PID}.order.engine", "cal:Component.property_items", "z3", ERROR, detail=repr(e)))
+    # ---- the insertion history is recorded faithfully: Component.add leaves every present name at its first-insertion position (C02's
+    #      contract of add, re-discharged here: "with sorting off properties appear exactly in insertion order")
+    try:
+        from props import C02, C02_bnd
+
+        class _R:
+            functions = set()
+        for ob in C02.add_obligations(_R, rep.tier):
+            if ob.oid.endswith("names_keep_their_first_insertion_position"):
+                ob.oid = f"{PID}.order.Component.add.names_keep_their_first_insertion_position"
+                if ob.status == REFUTED:
+                    w = _b.search_for(ob.oid)
+                    hist = _b.insertion_history_check()
+                    if hist:
+                        ob.witness, ob.replay = {"case": "history"}, {"confirmed": True, "native": hist[0]}
+                    else:
+                        ob.status = UNDECIDED
+                        ob.detail += " -- not confirmed natively"
+                rep.add(ob)
+                rep.functions.add("cal:Component.add")
+    except Exception as e:  # noqa
+        import traceback
+        traceback.print_exc()
+        rep.add(Obligation(f"{PID}.order.Component.add", "cal:Component.add", "z3", ERROR, detail=repr(e)))
     # ---- canonsort / sorted_keys / Parameters.to_ical shapes
     rep.add(canonsort_shape())
     rep.add(shape_obligation(f"{PID}.canonsort.sorted_keys_uses_canonical_order", "caselessdict:CaselessDict.sorted_keys",
